@@ -42,7 +42,7 @@ func cmdConc(args []string) error {
 		`s matches "^sc"`, `s not matches "x$" and m.s matches "x"`, `any m3 as k, v { k matches "^[ab]$" }`, `s matches "("`,
 		`all a.b.c as v { v.x == 1 and v.y != 2 }`, `any a.b.c.d.e as v { v.x == 2 }`, `all a.b.c.d.e.f as _, v { v.x != 9 }`, `any a.b.c.d.e.f.g as k, v { v.x == 3 and k != 1 }`,
 		`all "/a/b/c" as v { v.x == 1 or v.y == 2 }`, `any l as v { any v as w { w == 2 } }`, `m.zz == 1 or st.Zz is empty`, `u_str == unk and 1 in l.0`, `X == 1 and Y != a`,
-		`all Tags as t { t matches "^t" }`,
+		`all Tags as t { t matches "^t" }`, `any big as v { v == 39 }`, `num == 1 and X == 1`, `any a.b.c as v { v.x == 1 or v.y == 2 }`,
 	}
 	opts := [][]bexpr.Option{nil, {bexpr.WithUnknownValue("unk")}, {bexpr.WithHookFn(run.HookFn("unwrap"))}, {bexpr.WithTagName("json"), bexpr.WithMaxExpressions(1 << 20)}}
 	docs := func() []interface{} {
@@ -83,22 +83,32 @@ func cmdConc(args []string) error {
 								nd = len(fconts)
 							}
 							want := make([]string, nd)
-							for di := 0; di < nd; di++ {
-								if object == "shared filter" {
-									fl, err := bexpr.CreateFilter(src)
-									if err != nil {
-										return err
+							// the sequential results are computed AFTER the concurrent phase, so that process-wide state (caches, tables)
+							// is first touched concurrently
+							computeWant := func() error {
+								for di := 0; di < nd; di++ {
+									if object == "shared filter" {
+										fl, err := bexpr.CreateFilter(src)
+										if err != nil {
+											return err
+										}
+										_, want[di] = execute(fl, fconts[di])
+									} else {
+										d := data[di]
+										ev, out := run.Create(src, o...)
+										if ev == nil {
+											return fmt.Errorf("%q: %s", src, out.O)
+										}
+										want[di] = run.Eval(ev, d).O
 									}
-									_, want[di] = execute(fl, fconts[di])
-								} else {
-									d := data[di]
-									ev, out := run.Create(src, o...)
-									if ev == nil {
-										return fmt.Errorf("%q: %s", src, out.O)
-									}
-									want[di] = run.Eval(ev, d).O
 								}
+								return nil
 							}
+							type obs struct {
+								di  int
+								got string
+							}
+							var seen []obs
 							scen++
 							name := fmt.Sprintf("%s, %d goroutines x %d calls, warm=%v", object, k, ncalls, warm)
 							var ev *bexpr.Evaluator
@@ -139,22 +149,28 @@ func cmdConc(args []string) error {
 											}
 										}
 										mu.Lock()
-										calls++
-										if gw != nil && (calls%7 == 0 || got != want[di]) {
-											b, _ := json.Marshal(map[string]interface{}{"rel": "same", "obs": []string{short(want[di]), short(got)},
-												"info": map[string]interface{}{"scenario": name, "expr": src}})
-											gw.Write(b)
-											gw.WriteByte('\n')
-										}
-										if got != want[di] && len(bad) < 40 {
-											bad = append(bad, mm{Scenario: name, Expr: src, Want: trunc(want[di]), Got: trunc(got)})
-										}
+										seen = append(seen, obs{di, got})
 										mu.Unlock()
 									}
 								}(g)
 							}
 							close(start)
 							wg.Wait()
+							if err := computeWant(); err != nil {
+								return err
+							}
+							for _, ob := range seen {
+								calls++
+								if gw != nil && (calls%7 == 0 || ob.got != want[ob.di]) {
+									b, _ := json.Marshal(map[string]interface{}{"rel": "same", "obs": []string{short(want[ob.di]), short(ob.got)},
+										"info": map[string]interface{}{"scenario": name, "expr": src}})
+									gw.Write(b)
+									gw.WriteByte('\n')
+								}
+								if ob.got != want[ob.di] && len(bad) < 40 {
+									bad = append(bad, mm{Scenario: name, Expr: src, Want: trunc(want[ob.di]), Got: trunc(ob.got)})
+								}
+							}
 						}
 					}
 				}
